@@ -42,7 +42,7 @@ func (c05) Info() core.Info {
 			"bounded memory = the live heap stays below 1 GiB during every call (watchdog) and no single call allocates more than 1 GiB + 4096x the stream size cumulatively (runtime/metrics, exact to about 2 MiB); cumulative allocation that is merely quadratic (scte35.String) is not counted as a violation",
 			"a call that makes no progress for 10 s is a hang (confirmed by replay in a fresh process)",
 		},
-		RequiredProbes: []string{"no_fault_positive_control", "section_truncated", "length_enlarged", "length_reduced", "misaligned_stream", "reached_pat", "reached_pmt", "reached_scte35", "reached_ebp", "reached_pes", "reached_filter", "reached_state", "reached_restamp", "reached_readfrom"},
+		RequiredProbes: []string{"no_fault_positive_control", "section_truncated", "length_enlarged", "length_reduced", "misaligned_stream", "reached_pat", "reached_pmt", "reached_scte35", "reached_ebp", "reached_pes", "reached_filter", "reached_state", "reached_restamp", "reached_readfrom", "stress_long_unit"},
 	}
 }
 
@@ -410,8 +410,81 @@ func (d *c05Run) ro(name string, buf []byte, f func()) bool {
 	return true
 }
 
+// stress: resource bounds on long inputs (linear time and memory in the input size).
+func c05Stress(s *C05Script, c *core.Ctx) {
+	n := s.Stress
+	if n > 6000 {
+		n = 6000
+	}
+	c.Probe("stress_long_unit")
+	c.Log("c05 stress packets=%d", n)
+	// a PMT-PID unit: pointer_field 0, then back-to-back private sections of 186 bytes whose
+	// ends never coincide with a packet boundary (3+183 bytes vs 184-byte payloads) - the
+	// library predicate never reports completion before the data ends
+	var payload []byte
+	payload = append(payload, 0)
+	for len(payload) < n*184 {
+		sec := ref.ForeignSection{TableID: 0x42, Body: make([]byte, 179)}.Section()
+		payload = append(payload, sec...)
+	}
+	payload = payload[:n*184]
+	pk := parties.Packetise(payload, parties.Carrier{PID: 0x64})
+	stream := parties.Flatten(pk)
+	input := uint64(len(stream))
+	limit := 64*input + 4<<20
+	d := &c05Run{c: c, limit: limit}
+	c.Unit("stream_bytes", int64(len(stream)))
+	measure := func(name string, f func()) bool {
+		a0 := core.HeapAllocs()
+		if !c.Call(name, f) {
+			return false
+		}
+		if a := core.HeapAllocs() - a0; a > limit {
+			c.Fail("bounded_memory", "stress_alloc:"+name, fmt.Sprintf("%d bytes allocated for %d bytes of input (%.0fx)", a, input, float64(a)/float64(input)), fmt.Sprintf("<= 64x input + 4 MiB"))
+			return false
+		}
+		return true
+	}
+	_ = d
+	for _, pred := range []struct {
+		name string
+		f    func([]byte) (bool, error)
+	}{{"never", func([]byte) (bool, error) { return false, nil }}, {"library", psi.PmtAccumulatorDoneFunc}} {
+		pred := pred
+		if !measure("Accumulator long unit ("+pred.name+" predicate)", func() {
+			acc := packet.NewAccumulator(pred.f)
+			for i := range pk {
+				p := packet.Packet(pk[i])
+				acc.WritePacket(&p)
+			}
+			acc.Bytes()
+			acc.Packets()
+		}) {
+			return
+		}
+	}
+	if !measure("psi.ReadPMT long unit", func() { psi.ReadPMT(bytes.NewReader(stream), 0x64) }) {
+		return
+	}
+	if !measure("packetWriter.ReadFrom long stream", func() {
+		sink := packet.PacketWriterFunc(func(*packet.Packet) (int, error) { return 188, nil })
+		packet.IOWriter(sink).(io.ReaderFrom).ReadFrom(bytes.NewReader(stream))
+	}) {
+		return
+	}
+	// sync search over a long run of false sync bytes
+	junk := bytes.Repeat([]byte{0x47, 0x00, 0x05, 0x10}, n*47)
+	if !measure("packet.Sync long garbage", func() { packet.Sync(bufio.NewReaderSize(bytes.NewReader(junk), 4096)) }) {
+		return
+	}
+}
+
 func (c05) Exec(script interface{}, c *core.Ctx) {
 	s := script.(*C05Script)
+	if s.Stress > 0 {
+		c05Stress(s, c)
+		return
+	}
 	b := c05Build(s, c)
 	st := b.stream
 	c.Log("c05 msgs=%d faults=%d stream=%d", len(s.Msgs), len(s.Faults), len(st))
@@ -1419,6 +1492,11 @@ func (c05) Shrink(script interface{}) []interface{} {
 	if s.TruncAt != 0 || s.Stamp != 0 {
 		n := cp()
 		n.TruncAt, n.Stamp = 0, 0
+		out = append(out, n)
+	}
+	if s.Stress > 300 {
+		n := cp()
+		n.Stress = s.Stress / 2
 		out = append(out, n)
 	}
 	return out
